@@ -31,6 +31,14 @@ pub const ATTACKER: ([u8; 4], u16) = ([10, 66, 66, 66], 6666);
 const STRAY_SIZES: [usize; 14] = [1200, 43, 1199, 42, 1201, 44, 41, 100, 600, 20, 40, 58, 1350, 1472];
 const TINY_SIZES: [usize; 6] = [43, 42, 44, 41, 20, 40];
 
+/// source address used for spoofed copies of genuine client datagrams (`spoof_pm`); replies to it are recorded
+/// (`to-spoofed`) and go nowhere
+pub const SPOOFER: ([u8; 4], u16) = ([10, 77, 77, 77], 7777);
+
+fn spoofer_addr() -> s2n_quic_core::inet::SocketAddress {
+    std::net::SocketAddr::from(SPOOFER).into()
+}
+
 fn attacker_addr() -> s2n_quic_core::inet::SocketAddress {
     std::net::SocketAddr::from(ATTACKER).into()
 }
@@ -169,6 +177,11 @@ impl Network for Adversary {
                 trace::line(format!("wire {now} {src} {dst} {len} to-attacker - {hd}"));
                 continue;
             }
+            if packet.path.remote_address.0 == spoofer_addr() {
+                // datagram for the spoofed source address of a replayed client datagram: recorded, delivered nowhere
+                trace::line(format!("wire {now} {src} {dst} {len} to-spoofed - {hd}"));
+                continue;
+            }
             let log = |action: &str, at: Option<u64>| {
                 trace::line(format!(
                     "wire {now} {src} {dst} {len} {action} {} {hd}",
@@ -299,6 +312,32 @@ impl Network for Adversary {
                 p.path.local_address = attacker_addr().into();
                 trace::line(format!(
                     "wire {now} {} {} {} stray:{kind} {at} {}",
+                    p.path.local_address.0,
+                    p.path.remote_address.0,
+                    p.payload.len(),
+                    head(&p.payload)
+                ));
+                self.deliver(buffers, p, now, at);
+                count += 1;
+            }
+        }
+        // a genuine client datagram re-sent from a third source address (independent of the fault prefix)
+        if count > 0 && self.cfg.spoof_pm > 0 && self.rng.pm(self.cfg.spoof_pm) {
+            let client = self.client_addr.clone();
+            let max = self.cfg.spoof_max_len;
+            let cands: Vec<usize> = (0..self.seen.len())
+                .filter(|&k| {
+                    let p = &self.seen[k];
+                    Some(format!("{}", p.path.local_address.0)) == client && (max == 0 || p.payload.len() <= max)
+                })
+                .collect();
+            if !cands.is_empty() {
+                let k = cands[self.rng.below(cands.len() as u64) as usize];
+                let mut p = self.seen[k].clone();
+                p.path.local_address = spoofer_addr().into();
+                let at = now + self.cfg.delay_ms * 1000;
+                trace::line(format!(
+                    "wire {now} {} {} {} spoof {at} {}",
                     p.path.local_address.0,
                     p.path.remote_address.0,
                     p.payload.len(),
